@@ -446,6 +446,11 @@ func (core *JApiCore) addResponse(d *directive.Directive) *jerr.JApiError {
 	}
 
 	if d.Type() == directive.Body {
+		// The annotation of a response is the annotation of its code line.
+		if d.Annotation != "" {
+			return d.KeywordError(jerr.AnnotationIsForbiddenForTheDirective)
+		}
+
 		d1 := d.Parent
 		if d1.Type() == directive.HTTPResponseCode && typeParam != "" && d1.NamedParameter("Type") != "" {
 			return d.KeywordError(
